@@ -5,3 +5,7 @@ cd "$(dirname "$0")"
 export GOFLAGS=-mod=mod GOPROXY=off GOSUMDB=off GOTOOLCHAIN=local
 mkdir -p bin evidence
 go build -o bin/vcheck ./cmd/vcheck
+# compile the engines' sources once so that a broken tree is seen here, not inside a check
+(cd g && go build ./...)
+go build -tags verif -o bin/.schedh ./cmd/schedh
+go build -o bin/.emith ./cmd/emith
